@@ -766,7 +766,7 @@ fn trim_pixmap(
     let limit = tiny_skia::IntRect::from_xywh(0, 0, pixmap.width(), pixmap.height()).unwrap();
 
     let content_area = content_area.transform(transform)?.to_int_rect();
-    let content_area = fit_to_rect(content_area, limit);
+    let content_area = fit_to_rect(content_area, limit)?;
     let content_area = tiny_skia::IntRect::from_xywh(
         content_area.x(),
         content_area.y(),
@@ -778,7 +778,7 @@ fn trim_pixmap(
 }
 
 /// Fits the current rect into the specified bounds.
-fn fit_to_rect(r: tiny_skia::IntRect, bounds: tiny_skia::IntRect) -> tiny_skia::IntRect {
+fn fit_to_rect(r: tiny_skia::IntRect, bounds: tiny_skia::IntRect) -> Option<tiny_skia::IntRect> {
     let mut left = r.left();
     if left < bounds.left() {
         left = bounds.left();
@@ -799,7 +799,7 @@ fn fit_to_rect(r: tiny_skia::IntRect, bounds: tiny_skia::IntRect) -> tiny_skia::
         bottom = bounds.bottom();
     }
 
-    tiny_skia::IntRect::from_ltrb(left, top, right, bottom).unwrap()
+    tiny_skia::IntRect::from_ltrb(left, top, right, bottom)
 }
 
 fn svg_to_skia_color(color: svgtypes::Color) -> tiny_skia::Color {
